@@ -49,14 +49,12 @@ fn boundary(w: u32, signed: bool) -> Vec<BigInt> {
     around(&lo / 2, 1);
     around(&hi / 3, 0);
     around(&hi / 10, 1);
-    let mut p = BigInt::from(10);
-    while p <= hi {
-        around(p.clone(), 1);
-        around(-p.clone(), 1);
-        p *= 10;
-    }
-    for k in [4u32, 8, 12, 16, 20, 36, 40] {
-        around(BigInt::from(10).pow(k), 1);
+    for k in [1u32, 2, 4, 8, 9, 10, 12, 18, 19, 20, 37, 38, 39, 40, 75, 76, 77] {
+        let p = BigInt::from(10).pow(k);
+        if p <= hi {
+            around(p.clone(), 1);
+            around(-p, 0);
+        }
     }
     v.retain(|x| *x >= lo && *x <= hi);
     v.sort();
@@ -459,7 +457,7 @@ fn nat_type<T: ArrowNativeTypeOp + std::fmt::Display + FromBig>(t: &mut Shards, 
         // binary: every left operand against a boundary set (thorough), boundary x boundary (quick)
         let right: Vec<BigInt> = {
             let mut r: Vec<BigInt> =
-                [lo.clone(), &lo + 1, BigInt::from(-1), BigInt::zero(), BigInt::one(), BigInt::from(2), BigInt::from(3), BigInt::from(255), BigInt::from(256), BigInt::from(257), &hi / 2, &hi - 1, hi.clone()]
+                [lo.clone(), BigInt::from(-1), BigInt::zero(), BigInt::one(), BigInt::from(2), BigInt::from(255), BigInt::from(257), &hi / 2, hi.clone()]
                     .into_iter()
                     .filter(|x| *x >= lo && *x <= hi)
                     .collect();
@@ -481,13 +479,13 @@ fn nat_type<T: ArrowNativeTypeOp + std::fmt::Display + FromBig>(t: &mut Shards, 
     // boundary x (boundary + random), both operand orders
     let _ = hi;
     let mut set = bnd.clone();
-    let extra = args.scale(12, 60);
+    let extra = args.scale(4, 60);
     for _ in 0..extra {
         set.push(pick(rng, w, signed, Style::Wild, &bnd));
         set.push(pick(rng, w, signed, Style::Half, &bnd));
     }
     let sett = conv(&set);
-    let lefts: Vec<BigInt> = if args.thorough() || w == 16 { set.clone() } else { (0..24).map(|_| rng.pick(&set).clone()).collect() };
+    let lefts: Vec<BigInt> = if args.thorough() || w == 16 { set.clone() } else { (0..10).map(|_| rng.pick(&set).clone()).collect() };
     for op in NAT_BIN {
         for a in &lefts {
             nat_event(t, op, w, signed, &vec![T::from_big(a); sett.len()], &sett);
@@ -632,13 +630,19 @@ fn gen_dec_col(rng: &mut Rng, dt: &DataType, n: usize, style: Style, pat: usize)
 fn temporal_pairs() -> Vec<(DataType, DataType)> {
     use DataType::*;
     let mut v = vec![];
-    let tzs: [Option<Arc<str>>; 3] = [None, Some("UTC".into()), Some("+01:00".into())];
+    let tzs: [Option<Arc<str>>; 3] = [None, Some("+00:00".into()), Some("-05:30".into())];
     for (i, u) in [TimeUnit::Second, TimeUnit::Millisecond, TimeUnit::Microsecond, TimeUnit::Nanosecond].into_iter().enumerate() {
         let tz = tzs[i % 3].clone();
         v.push((Timestamp(u, tz.clone()), Duration(u)));
         v.push((Duration(u), Timestamp(u, tz.clone())));
         v.push((Timestamp(u, tz.clone()), Timestamp(u, tzs[(i + 1) % 3].clone())));
         v.push((Duration(u), Duration(u)));
+    }
+    // date / timestamp +- day-time interval: linear (whole days, milliseconds); the month-based forms are calendar dependent
+    v.push((Date32, Interval(IntervalUnit::DayTime)));
+    v.push((Date64, Interval(IntervalUnit::DayTime)));
+    for (i, u) in [TimeUnit::Second, TimeUnit::Millisecond, TimeUnit::Microsecond, TimeUnit::Nanosecond].into_iter().enumerate() {
+        v.push((Timestamp(u, tzs[(i + 2) % 3].clone()), Interval(IntervalUnit::DayTime)));
     }
     v.push((Timestamp(TimeUnit::Second, None), Duration(TimeUnit::Millisecond))); // unit mismatch: refused
     v.push((Date32, Date32));
@@ -666,7 +670,7 @@ fn bin_kernels(t: &mut Shards, rng: &mut Rng, args: &Args) {
     // decimals: equal and different scales, every width
     for w in [32u32, 64, 128, 256] {
         let types = decimal_types(w);
-        let rounds = args.scale(1, 6);
+        let rounds = args.scale(1, 3);
         for lt in &types {
             for rt in &types {
                 if !args.thorough() && !rng.chance(45) && lt != rt {
@@ -692,7 +696,7 @@ fn bin_kernels(t: &mut Shards, rng: &mut Rng, args: &Args) {
     // temporal and interval combinations the kernels support linearly, and a few they refuse
     for (lt, rt) in temporal_pairs() {
         let ops: Vec<&str> = BIN_OPS.to_vec();
-        bin_random(t, rng, &lt, &rt, &ops, args.scale(1, 6), 33);
+        bin_random(t, rng, &lt, &rt, &ops, args.scale(2, 10), 33);
     }
     // floats: only null propagation and error freedom are specified
     for dt in [Float16, Float32, Float64] {
@@ -1020,7 +1024,7 @@ fn aggregates(t: &mut Shards, rng: &mut Rng, args: &Args) {
         ($T:ty, $dt:expr, $bits:expr) => {{
             for &n in &lens {
                 for pat in 0..7 {
-                    if !args.thorough() && !rng.chance(35) {
+                    if !rng.chance(if args.thorough() { 60 } else { 35 }) {
                         continue;
                     }
                     let style = *rng.pick(&[Style::Wild, Style::Tame, Style::Half]);
@@ -1171,23 +1175,26 @@ fn arities(t: &mut Shards, rng: &mut Rng, args: &Args) {
             let am: Vec<i64> = a.iter().map(|x| x.unwrap_or(0) as i64).collect();
             let bm: Vec<i64> = if unary { vec![0; n] } else { b.iter().map(|x| x.unwrap_or(0) as i64).collect() };
             // the closure: records the row it is invoked on, returns a[row] + b[row] of the *model* columns
-            let val_at = |i: usize| -> i32 { a[i].unwrap_or(7777) + if unary { 0 } else { b[i].unwrap_or(7777) } };
+            // (total: a call on a null slot sees whatever lies under it, e.g. random bytes)
+            let val_at = |i: usize| -> i32 { if i >= n { 0 } else { a[i].unwrap_or(7777) + if unary { 0 } else { b[i].unwrap_or(7777) } } };
+            let failing = |i: i32| -> bool { i >= 0 && (i as usize) < n && fail[i as usize] == 1 };
+            let rec = |i: i32| -> i64 { if i >= 0 && (i as usize) < n { i as i64 + 1 } else { 0 } };
             let res: Result<Result<Int32Array, ArrowError>, String> = guarded(|| match f {
                 "try_unary" => arity::try_unary::<Int32Type, _, Int32Type>(pa, |i| {
-                    calls.borrow_mut().push(i as i64 + 1);
-                    if fail[i as usize] == 1 { Err(ArrowError::ComputeError("marked".into())) } else { Ok(val_at(i as usize)) }
+                    calls.borrow_mut().push(rec(i));
+                    if failing(i) { Err(ArrowError::ComputeError("marked".into())) } else { Ok(val_at(i as usize)) }
                 }),
                 "unary" => Ok(arity::unary::<Int32Type, _, Int32Type>(pa, |i| {
-                    calls.borrow_mut().push(i as i64 + 1);
+                    calls.borrow_mut().push(rec(i));
                     val_at(i as usize)
                 })),
                 "try_binary" => arity::try_binary::<_, _, _, Int32Type>(pa, pb, |i, j| {
-                    calls.borrow_mut().push(i as i64 + 1);
+                    calls.borrow_mut().push(rec(i));
                     if i != j { return Err(ArrowError::ComputeError("rows differ".into())); }
-                    if fail[i as usize] == 1 { Err(ArrowError::ComputeError("marked".into())) } else { Ok(val_at(i as usize)) }
+                    if failing(i) { Err(ArrowError::ComputeError("marked".into())) } else { Ok(val_at(i as usize)) }
                 }),
                 _ => arity::binary::<Int32Type, Int32Type, _, Int32Type>(pa, pb, |i, j| {
-                    calls.borrow_mut().push(i as i64 + 1);
+                    calls.borrow_mut().push(rec(i));
                     if i == j { val_at(i as usize) } else { -1 }
                 }),
             });
@@ -1205,21 +1212,194 @@ fn arities(t: &mut Shards, rng: &mut Rng, args: &Args) {
     }
 }
 
+// ------------------------------------------------- fixed point multiplication
+fn fixed_point(t: &mut Shards, rng: &mut Rng, args: &Args) {
+    use arrow_arith::arithmetic::{multiply_fixed_point, multiply_fixed_point_checked};
+    let types = [DataType::Decimal128(38, 10), DataType::Decimal128(20, 0), DataType::Decimal128(10, 3), DataType::Decimal128(38, 38), DataType::Decimal128(5, -2)];
+    for lt in &types {
+        for rt in &types {
+            let (s1, s2) = (dec_scale(lt).unwrap(), dec_scale(rt).unwrap());
+            for _ in 0..args.scale(1, 6) {
+                let req = (s1 + s2 - rng.range(-1, 12)).clamp(-20, 38) as i8;
+                let n = some_len(rng, 33);
+                let style = *rng.pick(&[Style::Wild, Style::Tame, Style::Half]);
+                let (lp, rp) = (rng.below(7), rng.below(7));
+                let l = gen_dec_col(rng, lt, n, style, lp);
+                let r = gen_dec_col(rng, rt, n, style, rp);
+                let (la, _) = realise(rng, l.build());
+                let (ra, _) = realise(rng, r.build());
+                for op in ["checked", "wrapping"] {
+                    let (lp, rp) = (la.as_primitive::<Decimal128Type>(), ra.as_primitive::<Decimal128Type>());
+                    let res = guarded(|| if op == "checked" { multiply_fixed_point_checked(lp, rp, req) } else { multiply_fixed_point(lp, rp, req) });
+                    let mut ev = json!({"k":"mfp","op":op,"lt":val::tdesc(lt),"rt":val::tdesc(rt),"req":req,"a":l.values_json(),"av":l.valid(),"b":r.values_json(),"bv":r.valid()});
+                    let m = ev.as_object_mut().unwrap();
+                    match res {
+                        Ok(Ok(out)) => {
+                            let orows = val::big_rows(&out);
+                            // witness of the wrapping form: rounded exact product = out + wit * 2^128
+                            let mut wit = vec![];
+                            if op == "wrapping" {
+                                let k = (s1 + s2 - req as i64) as u32;
+                                let div = BigInt::from(10).pow(k);
+                                for i in 0..orows.len() {
+                                    let w = match (&l.rows[i], &r.rows[i], &orows[i]) {
+                                        (Some(a), Some(b), Some(o)) => {
+                                            let p: BigInt = &a[0] * &b[0];
+                                            let half = &div / 2;
+                                            let rounded = if k == 0 { p.clone() } else if p >= BigInt::zero() { (&p + &half) / &div } else { (&p - &half) / &div };
+                                            (rounded - &o[0]) >> 128usize
+                                        }
+                                        _ => BigInt::zero(),
+                                    };
+                                    wit.push(big::wire(w));
+                                }
+                            }
+                            m.insert("err".into(), json!(false));
+                            m.insert("ecls".into(), json!(""));
+                            m.insert("ot".into(), val::tdesc(out.data_type()));
+                            m.insert("out".into(), val::rows_json(out.data_type(), &orows));
+                            m.insert("ov".into(), val::valid_json(&orows));
+                            m.insert("wit".into(), Value::Array(wit));
+                        }
+                        other => {
+                            let cls = match &other { Ok(Err(e)) => ecls(e), _ => "panic" };
+                            m.insert("err".into(), json!(true));
+                            m.insert("ecls".into(), json!(cls));
+                            m.insert("ot".into(), val::tdesc(lt));
+                            m.insert("out".into(), json!([]));
+                            m.insert("ov".into(), json!([]));
+                            m.insert("wit".into(), json!([]));
+                        }
+                    }
+                    t.emit(ev);
+                    t.next_episode();
+                }
+            }
+        }
+    }
+}
+
+// --------------------------------------------------------- bitwise kernels
+fn bitwise_kernels(t: &mut Shards, rng: &mut Rng, args: &Args) {
+    use arrow_arith::bitwise::*;
+    macro_rules! go {
+        ($T:ty, $dt:expr) => {{
+            let dt: DataType = $dt;
+            let (w, s) = val::fields(&dt).unwrap()[0];
+            for _ in 0..args.scale(6, 60) {
+                let n = some_len(rng, 130);
+                let (p1, p2) = (rng.below(7), rng.below(7));
+                let l = gen_col(rng, &dt, n, Style::Wild, p1);
+                let mut r = gen_col(rng, &dt, n, Style::Wild, p2);
+                if rng.chance(50) {
+                    // small shift amounts too
+                    for row in r.rows.iter_mut().flatten() {
+                        row[0] = BigInt::from(rng.below(2 * w as usize));
+                    }
+                }
+                let (la, _) = realise(rng, l.build());
+                let (ra, _) = realise(rng, r.build());
+                let (lp, rp) = (la.as_primitive::<$T>(), ra.as_primitive::<$T>());
+                for op in ["and", "or", "xor", "and_not", "not", "shl", "shr"] {
+                    let res = guarded(|| match op {
+                        "and" => bitwise_and(lp, rp),
+                        "or" => bitwise_or(lp, rp),
+                        "xor" => bitwise_xor(lp, rp),
+                        "and_not" => bitwise_and_not(lp, rp),
+                        "not" => bitwise_not(lp),
+                        "shl" => bitwise_shift_left(lp, rp),
+                        _ => bitwise_shift_right(lp, rp),
+                    });
+                    let bv: Vec<i64> = if op == "not" { vec![1; n] } else { r.valid() };
+                    let mut ev = json!({"k":"bitw","op":op,"w":w,"sg":s as u32,"a":l.values_json(),"av":l.valid(),"b":r.values_json(),"bv":bv});
+                    let m = ev.as_object_mut().unwrap();
+                    match res {
+                        Ok(Ok(out)) => {
+                            let orows = val::big_rows(&out);
+                            m.insert("err".into(), json!(false));
+                            m.insert("ecls".into(), json!(""));
+                            m.insert("out".into(), val::rows_json(&dt, &orows));
+                            m.insert("ov".into(), val::valid_json(&orows));
+                        }
+                        other => {
+                            let cls = match &other { Ok(Err(e)) => ecls(e), _ => "panic" };
+                            m.insert("err".into(), json!(true));
+                            m.insert("ecls".into(), json!(cls));
+                            m.insert("out".into(), json!([]));
+                            m.insert("ov".into(), json!([]));
+                        }
+                    }
+                    t.emit(ev);
+                    t.next_episode();
+                }
+            }
+        }};
+    }
+    go!(Int8Type, DataType::Int8);
+    go!(UInt8Type, DataType::UInt8);
+    go!(Int16Type, DataType::Int16);
+    go!(UInt16Type, DataType::UInt16);
+}
+
+/// deterministic corner cases (among them the minimal reproductions of the known findings)
+fn corners(t: &mut Shards, rng: &mut Rng) {
+    use DataType::*;
+    let one = |dt: &DataType, v: &str| Col::new(dt, vec![Some(vec![v.parse::<BigInt>().unwrap()])]);
+    let arr = |c: Col| Operand { col: c, scalar: false };
+    let mut case = |op: &str, lt: DataType, l: &str, rt: DataType, r: &str| {
+        emit_bin(t, rng, op, &arr(one(&lt, l)), &arr(one(&rt, r)), "corner");
+    };
+    // DESIGN.md 5.2: the exact sum fits i128 and 38 digits, the rescaled left operand does not
+    case("add", Decimal128(38, 0), "17014118346046923173168730371588410573", Decimal128(38, 1), "-99999999999999999999999999999999999999");
+    case("sub", Decimal128(38, 0), "17014118346046923173168730371588410573", Decimal128(38, 1), "99999999999999999999999999999999999999");
+    // 1000000.00 / 1000000.00 = 1.000000: the quotient fits, the rescaled dividend does not
+    case("div", Decimal32(9, 2), "100000000", Decimal32(9, 2), "100000000");
+    // 0.999999999 % 1000: the power of ten 10^12 wraps in i32
+    case("rem", Decimal32(9, 9), "999999999", Decimal32(9, -3), "1");
+    // -2147483648 % -1 = 0
+    case("rem", Decimal32(9, 0), "-2147483648", Decimal32(9, 0), "-1");
+    case("div", Decimal32(9, 0), "-2147483648", Decimal32(9, 0), "-1");
+    // integers: MIN / -1, MIN % -1, zero divisors, and the same values under a null slot
+    for dt in int_types() {
+        let (w, s) = val::fields(&dt).unwrap()[0];
+        let (lo, hi) = range(w, s);
+        let m1 = if s { "-1".to_string() } else { hi.to_string() };
+        for op in ["div", "rem"] {
+            case(op, dt.clone(), &lo.to_string(), dt.clone(), &m1);
+            case(op, dt.clone(), &hi.to_string(), dt.clone(), "0");
+        }
+    }
+    for dt in int_types() {
+        let (w, s) = val::fields(&dt).unwrap()[0];
+        let (lo, hi) = range(w, s);
+        for op in BIN_OPS {
+            // row 1 is null on the right with a zero / extreme value underneath, row 0 is harmless
+            let l = Col::new(&dt, vec![Some(vec![BigInt::from(6)]), Some(vec![hi.clone()])]);
+            let mut r = Col::new(&dt, vec![Some(vec![BigInt::from(3)]), None]);
+            r.under[1] = vec![if matches!(op, "div" | "rem") { BigInt::zero() } else if op.starts_with("sub") { lo.clone() - if s { 0 } else { -1 } } else { hi.clone() }];
+            if r.under[1][0] < lo { r.under[1][0] = lo.clone(); }
+            emit_bin(t, rng, op, &arr(l), &arr(r), "corner-null");
+        }
+    }
+}
+
 fn main() {
     let args = Args::parse();
     vcore::quiet_panics();
     let mut rng = Rng::new(args.seed);
-    let mut t = Shards::create(&args.out, "arith", 14);
+    let mut t = Shards::create(&args.out, "arith", if args.thorough() { 28 } else { 14 });
     let part = args.extra.first().cloned().unwrap_or_default();
     let want = |p: &str| part.is_empty() || part == p;
     if want("nat") { nat_all(&mut t, &mut rng, &args); }
     let n_nat = t.shards.iter().map(|s| s.events).sum::<usize>();
-    if want("bin") { bin_kernels(&mut t, &mut rng, &args); }
+    if want("bin") { corners(&mut t, &mut rng); bin_kernels(&mut t, &mut rng, &args); }
     if want("un") { un_kernels(&mut t, &mut rng, &args); }
     let n_kernel = t.shards.iter().map(|s| s.events).sum::<usize>() - n_nat;
     if want("agg") { aggregates(&mut t, &mut rng, &args); }
     if want("bool") { booleans(&mut t, &mut rng, &args); }
     if want("arity") { arities(&mut t, &mut rng, &args); }
+    if want("mfp") { fixed_point(&mut t, &mut rng, &args); }
+    if want("bitw") { bitwise_kernels(&mut t, &mut rng, &args); }
     let total = t.finish();
     println!("DRIVER c12 native_events={n_nat} kernel_events={n_kernel} other_events={} events={total}", total - n_nat - n_kernel);
 }
